@@ -528,7 +528,7 @@ def _confirm_and_shrink(task):
     res = replay_plan(plan)
     if not _same(res, sig):
         return {'confirmed': False, 'got': res['violation'], 'harness_error': res['harness_error']}
-    small, nruns = shrink(plan, sig)
+    small, nruns = shrink(plan, sig, budget_runs=400, budget_s=60)
     res2 = replay_plan(small)
     if not _same(res2, sig):
         small, res2 = plan, res
